@@ -265,7 +265,9 @@ func c06(c *Ctx) {
 					}
 					nG1++
 					construct := "msg.Params[" + astx.Str(x.Index) + "]"
-					if ok {
+					if !ok && loopVarBelowLen(info, fi, x, x.Index, isX) {
+						r.Ok("C06.G1", fi.Name(), construct, c.P.Pos(x.Pos()), "loop variable counting from a non-negative constant while below len(msg.Params)")
+					} else if ok {
 						r.Ok("C06.G1", fi.Name(), construct, c.P.Pos(x.Pos()), "dominated by len(msg.Params) > "+astx.Str(x.Index))
 					} else if serverOnly(fi) {
 						r.Assume("C06.G1", fi.Name(), construct, c.P.Pos(x.Pos()), "services lines are protocol-conforming")
@@ -498,6 +500,22 @@ func (c *Ctx) c06Index(f *ircFacts, fns []*load.FuncInfo, serverOnly func(*load.
 								}
 								if call, ok := ast.Unparen(be.Y).(*ast.CallExpr); ok && astx.Builtin(info, call) == "len" && sameX(call.Args[0]) && be.Op == token.LSS {
 									return true, "loop variable below len of the same operand"
+								}
+							}
+						}
+					}
+					// pinned by a dominating equality test with a constant within the array
+					if arrLen >= 0 {
+						for _, fct := range facts {
+							be, ok := ast.Unparen(fct.Expr).(*ast.BinaryExpr)
+							if !ok || fct.Tag != nil || !((be.Op == token.EQL && fct.Val) || (be.Op == token.NEQ && !fct.Val)) {
+								continue
+							}
+							for _, pr := range [][2]ast.Expr{{be.X, be.Y}, {be.Y, be.X}} {
+								if vid, ok := ast.Unparen(pr[0]).(*ast.Ident); ok && astx.Obj(info, vid) == o {
+									if k, ok := astx.ConstInt(info, pr[1]); ok && k >= 0 && k < arrLen && len(defsOfIn(info, fi.Body(), o)) <= 1 {
+										return true, "index pinned to a constant within the array by a dominating equality test"
+									}
 								}
 							}
 						}
@@ -871,17 +889,23 @@ func (c *Ctx) authLongEnough() bool {
 			continue
 		}
 		call, ok := ast.Unparen(def).(*ast.CallExpr)
-		if !ok || len(call.Args) != 2 {
+		if !ok {
 			continue
 		}
 		fn := astx.Callee(info, call)
-		if fn == nil || !isFunc(fn, "fmt", "Sprintf") {
+		var raw ast.Expr
+		switch {
+		case fn != nil && isFunc(fn, "fmt", "Sprintf") && len(call.Args) == 2:
+			if s, ok := astx.ConstString(info, call.Args[0]); ok && s == "%x" {
+				raw = call.Args[1]
+			}
+		case fn != nil && isFunc(fn, "encoding/hex", "EncodeToString") && len(call.Args) == 1:
+			raw = call.Args[0]
+		}
+		if raw == nil {
 			continue
 		}
-		if s, ok := astx.ConstString(info, call.Args[0]); !ok || s != "%x" {
-			continue
-		}
-		if bd := uniqueDef(info, fi.Node(), call.Args[1]); bd != nil {
+		if bd := uniqueDef(info, fi.Node(), raw); bd != nil {
 			if mk, ok := ast.Unparen(bd).(*ast.CallExpr); ok && astx.Builtin(info, mk) == "make" && len(mk.Args) == 2 {
 				if n, ok := astx.ConstInt(info, mk.Args[1]); ok && n >= 4 {
 					return true
@@ -912,4 +936,78 @@ func (c *Ctx) ircParamsNonEmpty() bool {
 		}
 	}
 	return ok && n == 1
+}
+
+// loopVarBelowLen: idx is the variable of an enclosing `for idx := <const >= 0>; idx < len(X); idx++ {…}` whose body
+// does not assign idx, and node lies in that body.
+func loopVarBelowLen(info *types.Info, fi *load.FuncInfo, node ast.Node, idx ast.Expr, isX func(ast.Expr) bool) bool {
+	id, ok := ast.Unparen(idx).(*ast.Ident)
+	if !ok {
+		return false
+	}
+	o := astx.Obj(info, id)
+	found := false
+	ast.Inspect(fi.Body(), func(m ast.Node) bool {
+		y, ok := m.(*ast.ForStmt)
+		if !ok || y.Init == nil || y.Cond == nil || y.Post == nil || !(y.Body.Pos() <= node.Pos() && node.End() <= y.Body.End()) {
+			return true
+		}
+		as, ok := y.Init.(*ast.AssignStmt)
+		if !ok || len(as.Lhs) != 1 || len(as.Rhs) != 1 {
+			return true
+		}
+		if lid, ok := as.Lhs[0].(*ast.Ident); !ok || astx.Obj(info, lid) != o {
+			return true
+		}
+		if lo, ok := astx.ConstInt(info, as.Rhs[0]); !ok || lo < 0 {
+			return true
+		}
+		be, ok := ast.Unparen(y.Cond).(*ast.BinaryExpr)
+		if !ok || be.Op != token.LSS {
+			return true
+		}
+		if lid, ok := ast.Unparen(be.X).(*ast.Ident); !ok || astx.Obj(info, lid) != o {
+			return true
+		}
+		call, ok := ast.Unparen(be.Y).(*ast.CallExpr)
+		if !ok || astx.Builtin(info, call) != "len" || !isX(call.Args[0]) {
+			return true
+		}
+		if inc, ok := y.Post.(*ast.IncDecStmt); !ok || inc.Tok != token.INC {
+			return true
+		}
+		if len(defsOfIn(info, y.Body, o)) > 0 {
+			return true
+		}
+		found = true
+		return true
+	})
+	return found
+}
+
+// defsOfIn lists assignments to obj inside root (including ++/--).
+func defsOfIn(info *types.Info, root ast.Node, obj types.Object) []ast.Node {
+	var out []ast.Node
+	ast.Inspect(root, func(n ast.Node) bool {
+		switch x := n.(type) {
+		case *ast.AssignStmt:
+			for _, l := range x.Lhs {
+				if id, ok := l.(*ast.Ident); ok && astx.Obj(info, id) == obj {
+					out = append(out, x)
+				}
+			}
+		case *ast.IncDecStmt:
+			if id, ok := ast.Unparen(x.X).(*ast.Ident); ok && astx.Obj(info, id) == obj {
+				out = append(out, x)
+			}
+		case *ast.RangeStmt:
+			for _, e := range []ast.Expr{x.Key, x.Value} {
+				if id, ok := e.(*ast.Ident); ok && astx.Obj(info, id) == obj {
+					out = append(out, x)
+				}
+			}
+		}
+		return true
+	})
+	return out
 }
